@@ -376,7 +376,7 @@ def inline_value_calls(p: Program, f: Function, depth: int = 2, keep=()) -> Func
     counter = [0]
     nested = {n.name: n for n in ast.walk(f.node) if isinstance(n, ast.FunctionDef) and n is not f.node}
 
-    def helper_of(call: ast.Call, module):
+    def helper_of(call: ast.Call, module, generator=False):
         if any(isinstance(a, ast.Starred) for a in call.args) or any(k.arg is None for k in call.keywords):
             return None, None
         skip = 0
@@ -422,6 +422,13 @@ def inline_value_calls(p: Program, f: Function, depth: int = 2, keep=()) -> Func
         while body and isinstance(body[-1], ast.With):
             body = body[:-1] + list(body[-1].body)
         rets = [n for n in own_walk(node) if isinstance(n, ast.Return)]
+        is_gen = any(isinstance(n, (ast.Yield, ast.YieldFrom)) for n in own_walk(node))
+        if generator:
+            if not is_gen or rets or any(isinstance(n, ast.YieldFrom) for n in own_walk(node)):
+                return None, None
+            return hmod, (body, mapping)
+        if is_gen:
+            return None, None
         if len(rets) != 1 or not body or body[-1] is not rets[0] or rets[0].value is None:
             single = single_exit(body)
             if single is None:
@@ -568,6 +575,38 @@ def inline_value_calls(p: Program, f: Function, depth: int = 2, keep=()) -> Func
             out.append(st)
         return out
 
+    def inline_generator(st, call, module):
+        hmod, info = helper_of(call, module, generator=True)
+        if hmod is None:
+            return None
+        body, mapping = info
+        counter[0] += 1
+        suffix = f"__inl{counter[0]}"
+        acc = f"_yielded{suffix}"
+        pre = [ast.Assign(targets=[ast.Name(id=acc, ctx=ast.Store())], value=ast.List(elts=[], ctx=ast.Load()))]
+        stored = {n.id for s_ in body for n in ast.walk(s_) if isinstance(n, ast.Name) and isinstance(n.ctx, ast.Store)}
+        for k in list(mapping):
+            if k in stored:
+                pre.append(ast.Assign(targets=[ast.Name(id=k + suffix, ctx=ast.Store())], value=copy.deepcopy(mapping[k])))
+        mapped = subst(body, mapping, suffix)
+
+        class Y(ast.NodeTransformer):
+            def visit_Expr(self, n):
+                if isinstance(n.value, ast.Yield) and n.value.value is not None:
+                    return ast.Expr(value=ast.Call(func=ast.Attribute(value=ast.Name(id=acc, ctx=ast.Load()), attr="append", ctx=ast.Load()),
+                                                   args=[n.value.value], keywords=[]))
+                return self.generic_visit(n)
+        mapped = [Y().visit(m) for m in mapped]
+        if any(isinstance(n, (ast.Yield, ast.YieldFrom)) for m in mapped for n in ast.walk(m)):
+            return None
+        res = ast.Name(id=acc, ctx=ast.Load())
+        last = ast.Assign(targets=copy.deepcopy(st.targets), value=res) if isinstance(st, ast.Assign) else ast.Return(value=res)
+        new = pre + mapped + [last]
+        for m in new:
+            for sub in ast.walk(m):
+                ast.copy_location(sub, st)
+        return fold(new, hmod), hmod
+
     def expand(stmts, module, d):
         out = []
         stmts = list(stmts)
@@ -615,6 +654,16 @@ def inline_value_calls(p: Program, f: Function, depth: int = 2, keep=()) -> Func
                     stmts[k_ - 1:k_] = [bind, st2]
                 k_ -= 1
                 continue
+            # `xs = list(gen(args))` / `return list(gen(args))` with gen a private generator: its body with every `yield v` read as
+            # `acc.append(v)`
+            if d > 0 and isinstance(st, (ast.Assign, ast.Return)) and isinstance(st.value, ast.Call) and isinstance(st.value.func, ast.Name) \
+                    and st.value.func.id in ("list", "tuple") and len(st.value.args) == 1 and isinstance(st.value.args[0], ast.Call) \
+                    and not st.value.keywords:
+                gen_new = inline_generator(st, st.value.args[0], module)
+                if gen_new is not None:
+                    new, hmod = gen_new
+                    out += expand(new, hmod, d - 1)
+                    continue
             call = None
             if d > 0 and isinstance(st, ast.Assign) and isinstance(st.value, ast.Call):
                 call = st.value
